@@ -1,7 +1,7 @@
 use serde::{Deserialize, Serialize};
 
 use crate::{
-    Document, FatToken,
+    Document, FatToken, Punctuation, TokenKind,
     linting::{Lint, LintKind, Suggestion},
 };
 
@@ -40,7 +40,15 @@ impl LintContext {
             .chain(problem_tokens)
             .chain(sequel_tokens)
             .flat_map(|idx| document.get_token(idx))
-            .map(|t| t.to_fat(document.get_source()))
+            .map(|t| {
+                let mut fat = t.to_fat(document.get_source());
+                // `twin_loc` is an absolute token index: it changes whenever a token is inserted or
+                // removed anywhere before the quote, and the context must not depend on locations.
+                if let TokenKind::Punctuation(Punctuation::Quote(quote)) = &mut fat.kind {
+                    quote.twin_loc = None;
+                }
+                fat
+            })
             .collect();
 
         Self {
